@@ -28,7 +28,8 @@
                               show it is tight (limit 12 / 210 bytes, a third cancellation).
   * renews_same_store       — over ANY transport (any device at all): in the exchange trace of a read or a
                               listing of store `s`, every Get answered C5h is immediately followed by the
-                              Reserve command of `s` (from the generated call-site table), both stores.
+                              Reserve command of `s` (from the generated call-site table), both stores;
+                              `requests_same_store`: no request of the trace addresses the other store.
                               That the read then completes is `completes_within_budget`.
   * list_exact_or_error     — a listing that returns, returns the device's records, each once, in
                               repository order; otherwise RetryError / CompletionCodeError; with fuel
@@ -121,6 +122,24 @@ theorem list_renews_same_store {σ : Type} (x : Xport σ) (dev : σ) (s : Store)
   have h1' : (sdrList consts xconsts variantRead (traced x) s fuel (dev, [])).1.2 = ext := by simpa using h1
   rw [h1'] at hi ⊢
   exact h2.next i e hi hc
+
+/-- **Only the store being read is addressed.**  Every request of a read or a listing of store `s`
+— the first reservation, every Get, every renewal — is a request to `s`; no command of the other
+store is ever issued (any transport). -/
+theorem requests_same_store {σ : Type} (x : Xport σ) (dev : σ) (s : Store) (id : Nat) (res? : Option Nat) (fuel : Nat) :
+    (∀ e ∈ (getSdrData consts xconsts variantRead (traced x) s (dev, []) id res?).1.2, e.1.store? = some s) ∧
+    (∀ e ∈ (sdrList consts xconsts variantRead (traced x) s fuel (dev, [])).1.2, e.1.store? = some s) := by
+  constructor
+  · obtain ⟨ext, h1, h2⟩ := getSdrData_ext x variantRead s (dev, []) id res?
+    rw [call_sites] at h2
+    have h1' : (getSdrData consts xconsts variantRead (traced x) s (dev, []) id res?).1.2 = ext := by simpa using h1
+    rw [h1']
+    exact h2.same_store
+  · obtain ⟨ext, h1, h2⟩ := sdrList_ext x variantRead s fuel (dev, [])
+    rw [call_sites] at h2
+    have h1' : (sdrList consts xconsts variantRead (traced x) s fuel (dev, [])).1.2 = ext := by simpa using h1
+    rw [h1']
+    exact h2.same_store
 
 /-- **Listing, exact or error.**  A listing that returns, returns every record of the store exactly
 once, in repository order, whatever the limit and the faults; otherwise it raises RetryError or
